@@ -81,6 +81,7 @@ type Queue struct {
 	CurPrio      int32             `json:"curPrio,omitempty"`
 	Template     *dao.TemplateInfo `json:"template,omitempty"`
 	EffMax       res.R             `json:"effMax"` // GetMaxResource(): hierarchy-limited maximum
+	QuotaStart   int64             `json:"quotaStart,omitempty"` // unix nano of the quota preemption start time, 0 = not set
 }
 
 type PHData struct {
@@ -202,6 +203,9 @@ func walkQueues(q *objects.Queue, out map[string]*Queue) {
 		PrioFence: d.IsPriorityFence, PrioOffset: d.PriorityOffset, SortPolicy: d.SortingPolicy, PrioSort: d.PrioritySorting,
 		PreemptDelay: d.PreemptionDelay, QuotaDelay: d.QuotaPreemptionDelay, CurPrio: d.CurrentPriority, Template: d.TemplateInfo,
 		EffMax: res.FromKeep(q.GetMaxResource()),
+	}
+	if t := q.VerifQuotaPreemptionStart(); !t.IsZero() {
+		wq.QuotaStart = t.UnixNano()
 	}
 	sort.Strings(wq.Allocating)
 	sort.Strings(wq.Children)
